@@ -30,8 +30,43 @@
 
 #if KERNEL == K_RS28_ADDMUL1
 /* the static kernel and its table: include the translation unit itself
- * (it is then left out of the library link, in CBMC and native builds alike) */
+ * (it is then left out of the library link, in CBMC and native builds alike).
+ * With SYMTAB the generated table header declares of_gf_mul_table `extern` without a
+ * definition: every entry of the table is then a free solver variable (see below). */
 #include "lib_stable/reed-solomon_gf_2_8/of_reed-solomon_gf_2_8.c"
+#endif
+#if KERNEL == K_GF28_ADDMUL1 && defined(ROWTAB)
+/* ROWTAB (abstraction of the multiplication table, used as a fast filter): the kernel is compiled
+ * here with the identifier of the 256x256 table bound to an array of 256 row POINTERS that are all
+ * NULL except the one of the (symbolic) constant c, which points to a 256-byte row filled with
+ * c*j computed by shift-xor arithmetic.  A run that passes has therefore read the table only in row
+ * c, columns 0..255, and has read there the values C14 proves the real table to hold; everything
+ * else is the real code.  It avoids the 64K-entry case split per byte of the exact query.  A
+ * FAILURE of such a query is never reported: the driver then runs the exact query (real table)
+ * for the same size and reports only what that one finds. */
+static gf *verif_rowptr[256];
+#define of_gf_2_8_mul_table verif_rowptr
+#include "lib_stable/reed-solomon_gf_2_m/galois_field_codes_utils/algebra_2_8.c"
+#define VERIF_ROWTAB verif_rowptr
+#endif
+#if KERNEL == K_RS28_ADDMUL1 && defined(ROWTAB)
+/* same abstraction for codec 1: the generated table header (hook 2) declares
+ * `static gf *of_gf_mul_table[256]` instead of the table */
+#define VERIF_ROWTAB of_gf_mul_table
+#endif
+#ifdef VERIF_ROWTAB
+static gf verif_row[256];
+static gf ref_mul8(unsigned a, unsigned b)
+{
+	unsigned r = 0, i;
+	for (i = 0; i < 8; i++) {
+		if (b & 1) r ^= a;
+		b >>= 1;
+		a <<= 1;
+		if (a & 0x100) a ^= 0x11D;
+	}
+	return (gf)r;
+}
 #endif
 
 #define NB (KCOUNT > 0 ? KCOUNT : 1)
@@ -108,6 +143,9 @@ int main(void)
 #else
 	gf c = in_u8();               /* all constants of the field */
 #endif
+#ifdef KASSUME
+	ASSUME(c == (gf)(KASSUME));   /* one constant per query, still a solver variable (no constant row pointer: DESIGN 9) */
+#endif
 #if KERNEL == K_GF24_ADDMUL1
 	/* one field element per byte: operands are field elements */
 	ASSUME(c < 16);
@@ -115,6 +153,10 @@ int main(void)
 #endif
 #if KERNEL == K_GF24_ADDMUL1_CPT
 	ASSUME(c < 16);
+#endif
+#ifdef VERIF_ROWTAB
+	for (i = 0; i < 256; i++) verif_row[i] = ref_mul8(c, i);
+	VERIF_ROWTAB[c] = verif_row;
 #endif
 #if KERNEL == K_RS28_ADDMUL1
 	if (of_rs_initialized == 0) of_rs_init();
@@ -128,7 +170,9 @@ int main(void)
 #endif
 	for (i = 0; i < KSIZE; i++) {
 		unsigned char x = c_src[0][i], prod;
-#if KERNEL == K_RS28_ADDMUL1
+#ifdef VERIF_ROWTAB
+		prod = verif_row[x];          /* = c*x by construction of the row (shift-xor) */
+#elif KERNEL == K_RS28_ADDMUL1
 		prod = of_gf_mul_table[c][x];
 #elif KERNEL == K_GF28_ADDMUL1
 		prod = of_gf_2_8_mul_table[c][x];
